@@ -4,6 +4,7 @@ package main
 import (
 	"context"
 	"fmt"
+	"regexp"
 	"strings"
 	"time"
 
@@ -31,10 +32,12 @@ const (
 	fAgg
 	fKindBoot
 	fAggBoot
+	fKindLabel // kind watch with a label selector (only resources labelled sel=1 match)
+	fAggIDQuery
 	nFlavours
 )
 
-var fNames = []string{"watch-id", "watch-kind", "watch-kind-agg", "watch-kind-bootstrap", "watch-kind-agg-bootstrap"}
+var fNames = []string{"watch-id", "watch-kind", "watch-kind-agg", "watch-kind-bootstrap", "watch-kind-agg-bootstrap", "watch-kind-label-selector", "watch-kind-agg-id-selector"}
 
 type plan struct {
 	fl       flavour
@@ -137,7 +140,9 @@ func write(ctx context.Context, st state.State, i int) {
 	case 3:
 		err = st.Destroy(ctx, hx.IntPtr("a"))
 	case 4:
-		err = st.Create(ctx, conformance.NewIntResource(hx.NS, "a", 3))
+		na := conformance.NewIntResource(hx.NS, "a", 3)
+		na.Metadata().Labels().Set("sel", "1")
+		err = st.Create(ctx, na)
 	case 6:
 		err = st.Destroy(ctx, hx.IntPtr("b"))
 	}
@@ -182,6 +187,10 @@ func startWatch(ctx context.Context, st state.CoreState, fl flavour, s *sink) er
 		err = st.WatchKind(ctx, hx.IntKind(), ch, state.WithBootstrapContents(true))
 	case fAggBoot:
 		err = st.WatchKindAggregated(ctx, hx.IntKind(), ach, state.WithBootstrapContents(true))
+	case fKindLabel:
+		err = st.WatchKind(ctx, hx.IntKind(), ch, state.WatchWithLabelQuery(resource.LabelEqual("sel", "1")))
+	case fAggIDQuery:
+		err = st.WatchKindAggregated(ctx, hx.IntKind(), ach, state.WatchWithIDQuery(resource.IDRegexpMatch(regexp.MustCompile("^a$"))))
 	}
 	if err != nil {
 		return err
@@ -225,7 +234,9 @@ func body(p plan, x *explore.X) {
 	}
 	backend := &swappable{mkBackend()}
 	bst := state.WrapCore(backend)
-	if err := bst.Create(ctx, conformance.NewIntResource(hx.NS, "a", 1)); err != nil {
+	ra := conformance.NewIntResource(hx.NS, "a", 1)
+	ra.Metadata().Labels().Set("sel", "1")
+	if err := bst.Create(ctx, ra); err != nil {
 		panic(err)
 	}
 	if err := bst.Create(ctx, conformance.NewIntResource(hx.NS, "z", 9)); err != nil {
@@ -331,6 +342,8 @@ func body(p plan, x *explore.X) {
 		case fKindBoot:
 			bookmarked = seen - 2 // two bootstrap Created events without bookmark, then Bootstrapped (bookmarked)
 		case fAggBoot:
+			bookmarked = seen
+		case fKindLabel, fAggIDQuery:
 			bookmarked = seen
 		}
 		if bookmarked <= 0 {
@@ -443,7 +456,7 @@ func main() {
 		Property:  "C13",
 		Level:     "fault_enumeration",
 		Technique: "exhaustive enumeration of transport fault plans (position x mode x repetitions x re-establishment failures x writes during the outage) on the real client adapter and server over an in-process transport, virtual clock, exact quiescence; plus stateless exploration of schedules for selected plans",
-		Rule:      "5 watch flavours x fault positions 0..5 x {before message, message lost} x repeat 0..2 x failed re-establishments 0..2 x outage writes 0..2, plus retries disabled, server restarted, history moved on; non-trivial = distinct plans",
+		Rule:      "7 watch flavours (incl. label- and ID-selector watches) x fault positions 0..5 x {before message, message lost} x repeat 0..2 x failed re-establishments 0..2 x outage writes 0..2, plus retries disabled, server restarted, history moved on; non-trivial = distinct plans",
 		Assume:    []string{"transport failures are modelled at the Recv/Watch-call seam the client code sees (Unavailable)", "a restarted server is modelled by replacing the backend with a fresh, shorter log (the bookmark cookie is process-global)"},
 		Extra:     map[string]any{"explanation": "states = fault plans executed; transitions = scheduler steps"},
 	}, build)
